@@ -22,6 +22,10 @@ func runC09(c *Ctx) {
 	c09LockOrder(c)
 	c09HandOff(c)
 	c09Freshness(c)
+	// the buffer pool is shared between the receive and the parse thread: one Free per received buffer and
+	// pop/push under the lock are necessary for "no two holders of one buffer" (rules shared with C10)
+	c10Free(c)
+	c10Pool(c)
 }
 
 // sharedTypes: struct types that can be reached from two different listeners' proxies: arguments of the per-listener
